@@ -1,7 +1,7 @@
 (* C01 -- property theorems only; each closed by `exact` and followed by Print Assumptions.
    World / steps / M_step (implementation model) / S_step (value-semantics specification) / guarded / observations are
    defined in SF/Heap.v; Gen/Gen_c01.v is regenerated from the source of /repo on every run. *)
-Require Import SF.Prelude SF.Heap SF.HeapAudit Gen.Gen_c01 Proofs.HeapFrozen Proofs.HeapRefine Proofs.HeapRound.
+Require Import SF.Prelude SF.Heap SF.HeapAudit SF.HeapGrow Gen.Gen_c01 Proofs.HeapFrozen Proofs.HeapRefine Proofs.HeapRound Proofs.HeapGrowFacts.
 Local Open Scope nat_scope.
 
 (* After ANY guarded history (constructions through immutable_filter / own_data, derivations by view or by
@@ -117,3 +117,26 @@ Print Assumptions C01_no_protect_site_lost.
 Theorem C01_thaw_sites_whitelisted : thaw_sites freeze_census = thaw_whitelist.
 Proof. exact (eq_refl thaw_whitelist). Qed.
 Print Assumptions C01_thaw_sites_whitelisted.
+
+(* util.PositionsAllocator (the process-wide positions array every Index hands out as .positions): read off the current source,
+   every (re)allocation of the shared array is frozen before it is published -- also in the regrow branch, which no small input reaches. *)
+Theorem C01_positions_allocator_publishes_frozen : positions_allocator_publishes_frozen = true.
+Proof. exact (eq_refl true). Qed.
+Print Assumptions C01_positions_allocator_publishes_frozen.
+
+(* GROWABLE MEMBERS (SF/HeapGrow.v: the block list of a TypeBlocks, the label list of an IndexGO / IndexHierarchyGO).  Whatever is
+   built from whatever through routes that keep member lists only between two static containers, and however often any grow-only
+   container is grown afterwards (setitem / append / extend), what is seen through a static container never changes. *)
+Theorem C01_growing_a_source_never_changes_a_static_container : forall h1 h2 c k,
+  gguarded gw0 (h1 ++ h2) = true ->
+  nth_error (gw_conts (grun gM_step gw0 h1)) c = Some k -> g_static k = true ->
+  gobs_at (grun gM_step gw0 (h1 ++ h2)) c = gobs_at (grun gM_step gw0 h1) c.
+Proof. exact static_never_changes. Qed.
+Print Assumptions C01_growing_a_source_never_changes_a_static_container.
+
+(* ... and on such histories keeping the member lists is indistinguishable from copying them (value semantics): same outcome of
+   every step, same members seen through every container after every step. *)
+Theorem C01_grow_refines_value_semantics : forall hist, gguarded gw0 hist = true ->
+  gtrace gM_step gw0 hist = gtrace gS_step gw0 hist.
+Proof. exact grow_refinement. Qed.
+Print Assumptions C01_grow_refines_value_semantics.
